@@ -22,10 +22,17 @@
   * for the clique-graph strategy: `kruskal` marks a spanning tree and
     `determine_parent_cliques`/`assign_children` orient it (`Lemmas/ChordalKruskal.lean`).
 
-  Not carried by a theorem (checked by the correspondence + validity oracle on every run): the
-  construction and the merge loop of the reduced clique graph (clique-graph strategy), the AMD
-  ordering and the symbolic factorisation (inputs of the model; the hypotheses of the pipeline
-  theorems are evaluated on them at run time, channel `hyp.analysis`); see the note at the end.
+  Follow-up of round 3 (last section): the FRONT HALF of the clique-graph strategy — the reduced
+  clique graph contains the supernode tree, `new_from_triplets`/`set_entry`/`dropzeros`, the loop
+  invariant `CGInv` established by `initialise` and preserved by every merge, termination, the
+  hypotheses of the Kruskal stage at exit, `post_process_merge`, and the pipeline
+  `SparsityPattern::new(·, ·, "clique_graph")` up to two tested links
+  (`analysis_clique_graph_valid_partial`; `Lemmas/ChordalCG*.lean`).
+
+  Not carried by a theorem: the running-intersection property of Kruskal's spanning tree in the
+  merged clique graph (tested hypotheses `cgRipB`, `cgNonemptyB`, channel `cg.trace`), the AMD ordering and the
+  symbolic factorisation (inputs of the model; the hypotheses of the pipeline theorems are
+  evaluated on them at run time, channel `hyp.analysis`); see the note at the end.
 -/
 import ClarabelProofs.Lemmas.ChordalDsu
 import ClarabelProofs.Lemmas.ChordalPostOrder
@@ -39,6 +46,7 @@ import ClarabelProofs.Lemmas.ChordalSnodeParent
 import ClarabelProofs.Lemmas.ChordalKruskal
 import ClarabelProofs.Lemmas.ChordalValid
 import ClarabelProofs.Lemmas.ChordalBridge
+import ClarabelProofs.Lemmas.ChordalCGFinal
 
 namespace Clarabel.C17
 open Clarabel Clarabel.Chordal
@@ -725,15 +733,360 @@ example : KrEx.tri.WFE ∧ kruskalTree KrEx.tri 3 = [(1, 0), (2, 0)] ∧
   refine ⟨KrEx.tri_wfe, KrEx.tri_tree, ?_⟩
   rw [KrEx.tri_tree]; rfl
 
+/-! ## the clique-graph strategy, front half (`merge/clique_graph.rs`: `compute_reduced_clique_graph`,
+`compute_weights`, `new_from_triplets`, `compute_adjacency_table`, `initialise`, `traverse`,
+`evaluate`, `merge_two_cliques`, `update_strategy`, the loop of `merge_cliques`,
+`post_process_merge`) — `Lemmas/ChordalCG*.lean`
+
+While this strategy runs the tree structure is given up: `snode[c]` is the whole clique and a
+merged-away clique is the empty set (`CGLive`).  THE LOOP INVARIANT is `CGInv N nv s t`
+(`Lemmas/ChordalCGDefs.lean`): the edge matrix is well-formed, square, strictly lower triangular
+with sorted columns (`IMat.Good`) and stores no zero weight; its entries join live cliques only and
+connect all of them; the adjacency table has exactly the live cliques as keys and
+`b ∈ table[a] ↔ (a, b) is a stored entry` (so it is symmetric and never mentions a removed clique);
+`n_cliques` counts the live cliques; `|nzval| ≤ |p|`; the clique sets are repetition-free subsets of
+`0..nv`.  The harness evaluates the same invariant on the IMPLEMENTATION's state after every pass
+(channel `cg.trace`, where the states of model and implementation are also compared). -/
+
+/-- [S] `edge_metric` (cubic) does not panic and THE WEIGHT OF TWO NON-EMPTY CLIQUES IS NEVER `0`:
+`|C₁|³ + |C₂|³ = |C₁ ∪ C₂|³` has no solution in positive integers (Fermat's last theorem for
+exponent 3, Mathlib's `fermatLastTheoremThree`).  This is what keeps the graph intact: the weights
+ARE the stored values, `set_entry` does not insert a `0` and `dropzeros` erases every stored `0`. -/
+theorem edge_weight_ne_zero (ca cb : VSet) :
+    ∃ w, edgeMetric ca cb = .ok w ∧ (ca ≠ #[] → cb ≠ #[] → w ≠ 0) :=
+  edgeMetric_ok ca cb
+
+/-- [S] `new_from_triplets` on in-range strictly lower triangular triplets (repetitions allowed):
+no panic (none of the `usize` decrements of the consolidation pass underflows); the result is a
+well-formed `n × n` strictly lower triangular matrix with strictly increasing rows in every column
+(`IMat.Good` = `WFE` + `Lower` + `Sorted`), whose stored positions are exactly the triplet
+positions, each value being the sum of the triplet values at that position. -/
+theorem new_from_triplets (n : Nat) (I J : Array Nat) (V : Array Int) (hIJ : I.size = J.size)
+    (hIV : I.size = V.size)
+    (hlow : ∀ k, k < I.size → J.getD k 0 < I.getD k 0 ∧ I.getD k 0 < n) :
+    ∃ E, IMat.newFromTriplets n n I J V = .ok E ∧ E.m = n ∧ E.n = n ∧ E.Good ∧
+      (∀ r c, (E.entry r c).isSome = true ↔ ∃ k, k < I.size ∧ I.getD k 0 = r ∧ J.getD k 0 = c) ∧
+      (∀ r c v, E.entry r c = some v →
+        v = (((List.range I.size).filter (fun k => I.getD k 0 == r && J.getD k 0 == c)).map
+              (fun k => V.getD k 0)).sum) :=
+  newFromTriplets_spec n I J V hIJ hIV hlow
+
+/-- non-vacuity: two triplets at `(1,0)` are consolidated -/
+example : ∃ E, IMat.newFromTriplets 3 3 #[2, 1, 2, 1] #[1, 0, 0, 0] #[1, 5, 7, 2] = .ok E ∧ E.Good :=
+  by
+  obtain ⟨E, h, _, _, hg, _⟩ := new_from_triplets 3 #[2, 1, 2, 1] #[1, 0, 0, 0] #[1, 5, 7, 2] rfl rfl
+    (by
+      intro k hk
+      have : k = 0 ∨ k = 1 ∨ k = 2 ∨ k = 3 := by simp at hk; omega
+      rcases this with rfl | rfl | rfl | rfl <;> decide)
+  exact ⟨E, h, hg⟩
+
+/-- [S] `set_entry` at a strictly lower in-range position of a `Good` matrix: no panic, `Good` is
+kept, exactly the addressed entry changes — a non-zero value is written or inserted, a zero is
+written over an existing entry but never inserted. -/
+theorem set_entry {E : IMat} (h : E.Good) {row col : Nat} (hlt : col < row) (hr : row < E.n)
+    (v : Int) :
+    ∃ E', E.setEntry row col v = .ok E' ∧ E'.Good ∧ E'.m = E.m ∧ E'.n = E.n ∧
+      (∀ r c, E'.entry r c =
+        if r = row ∧ c = col then
+          (if v = 0 then (E.entry row col).map (fun _ => (0 : Int)) else some v)
+        else E.entry r c) :=
+  setEntry_spec E h row col hlt hr v
+
+/-- [S] `dropzeros` on a `Good` matrix: no panic, `Good` is kept, exactly the entries with value
+`0` disappear. -/
+theorem dropzeros {E : IMat} (h : E.Good) :
+    ∃ E', E.dropzeros = .ok E' ∧ E'.Good ∧ E'.m = E.m ∧ E'.n = E.n ∧
+      (∀ r c, E'.entry r c = (E.entry r c).filter (fun v => v != 0)) :=
+  dropzeros_spec E h
+
+/-- non-vacuity of `set_entry` / `dropzeros`: the weighted triangle of the Kruskal examples -/
+example : KrEx.tri.Good := KrEx.tri_good
+
+/-- [S] `compute_reduced_clique_graph` NEVER PANICS, for any separators and clique sets (every
+hash-map lookup hits, the recursion `DFS_hashtable` stays within the number of cliques containing
+the separator, `is_unconnected` always finds a component); the separators come back permuted and
+every emitted pair satisfies `cols[k] < rows[k] < |cliques|`. -/
+theorem reduced_clique_graph_ok (separators cliques : Array VSet) :
+    ∃ seps' rows cols, computeReducedCliqueGraph separators cliques = .ok (seps', rows, cols) ∧
+      seps'.toList.Perm separators.toList ∧ rows.size = cols.size ∧
+      (∀ k, k < rows.size → cols.getD k 0 < rows.getD k 0 ∧ rows.getD k 0 < cliques.size) :=
+  reduced_ok separators cliques
+
+/-- [S] THE EDGES OF A CLIQUE TREE ARE EDGES OF THE REDUCED CLIQUE GRAPH: if the separator `S` is
+listed, `S = clique c ∩ clique p`, and the cliques fall into two sides (`c` on one, `p` on the other)
+such that cliques on different sides meet inside `S` only (what running intersection gives for
+the two components of the tree minus the edge `c — p`), then `compute_reduced_clique_graph` emits
+the pair `(max c p, min c p)`. -/
+theorem reduced_clique_graph_tree_edge {separators cliques seps' : Array VSet}
+    {rows cols : Array Nat}
+    (hrun : computeReducedCliqueGraph separators cliques = .ok (seps', rows, cols))
+    (hnd : ∀ i, i < cliques.size → (cliques.getD i #[]).toList.Nodup)
+    {c p : Nat} (hc : c < cliques.size) (hp : p < cliques.size)
+    {S : VSet} (hS : S ∈ separators.toList) (hSnd : S.toList.Nodup)
+    (hSeq : ∀ v, v ∈ S.toList ↔
+      (v ∈ (cliques.getD c #[]).toList ∧ v ∈ (cliques.getD p #[]).toList))
+    (side : Nat → Prop) (hsc : side c) (hsp : ¬ side p)
+    (hcross : ∀ a b, a < cliques.size → b < cliques.size → side a → ¬ side b →
+      ∀ v, v ∈ (cliques.getD a #[]).toList → v ∈ (cliques.getD b #[]).toList → v ∈ S.toList) :
+    ∃ k, k < rows.size ∧ rows.getD k 0 = max c p ∧ cols.getD k 0 = min c p :=
+  reduced_tree_edge separators cliques seps' rows cols hrun hnd c p hc hp S hS hSnd hSeq side hsc
+    hsp hcross
+
+/-- non-vacuity: the cliques `{0,1}`, `{1,2}` with the separator `{1}`: the pair `(1, 0)` is
+emitted -/
+example : ∃ seps' rows cols,
+    computeReducedCliqueGraph #[#[1], #[]] #[#[0, 1], #[1, 2]] = .ok (seps', rows, cols) ∧
+    ∃ k, k < rows.size ∧ rows.getD k 0 = 1 ∧ cols.getD k 0 = 0 := by
+  obtain ⟨seps', rows, cols, hrun, _⟩ := reduced_clique_graph_ok #[#[1], #[]] #[#[0, 1], #[1, 2]]
+  refine ⟨seps', rows, cols, hrun, ?_⟩
+  have := reduced_clique_graph_tree_edge hrun
+    (by
+      intro i hi
+      have : i = 0 ∨ i = 1 := by simp at hi; omega
+      rcases this with rfl | rfl <;> decide)
+    (c := 0) (p := 1) (by decide) (by decide) (S := #[1]) (by simp) (by decide)
+    (by intro v; simp; omega) (fun a => a = 0) rfl (by decide)
+    (by
+      intro a b ha hb hsa hsb v hva hvb
+      have hb' : b = 1 := by
+        have : b = 0 ∨ b = 1 := by simp at hb; omega
+        rcases this with rfl | rfl
+        · exact absurd rfl hsb
+        · rfl
+      subst hsa; subst hb'
+      have h1 : v = 0 ∨ v = 1 := by simpa using hva
+      have h2 : v = 1 ∨ v = 2 := by simpa using hvb
+      have : v = 1 := by omega
+      simp [this])
+  simpa using this
+
+/-- [S] **`initialise` ESTABLISHES THE LOOP INVARIANT**: on the tree `t0` of `SuperNodeTree::new`
+(filled pattern, ≥ 2 cliques) `initialise` does not panic; afterwards the supernodes are the whole
+cliques, all parents are `INACTIVE_NODE`, the children lists are empty, the separators are only
+permuted (`CGInitRel`), and `CGInv` holds: in particular the edge matrix is `Good`
+(`IMat.WFE`/`IMat.Lower`), joins only live cliques, stores no zero weight, and EVERY PARENT–CHILD
+PAIR OF THE SUPERNODE TREE IS A STORED ENTRY, so the cliques are connected. -/
+theorem clique_graph_initialise {L : LPat} (h : L.Filled) {t0 : SuperNodeTree}
+    (hok : SnTreeOk L t0) (h2 : 2 ≤ t0.snode.size) :
+    ∃ s1 t1, CGStrategy.new.initialise t0 = .ok (s1, t1) ∧ s1.stop = false ∧
+      CGInv t0.snode.size L.n s1 t1 ∧ CGInitRel t0 t1 :=
+  initialise_ok L t0 h hok h2
+
+/-- [S] the tree of `SuperNodeTree::new exL` has at least two cliques (`0` and `3` are not
+adjacent) — non-vacuity of the hypotheses `SnTreeOk L t0`, `2 ≤ t0.snode.size` below -/
+theorem exL_two_cliques : ∃ t0, SuperNodeTree.new exL = .ok t0 ∧ SnTreeOk exL t0 ∧
+    2 ≤ t0.snode.size :=
+  exFilledL_two_cliques
+
+/-- non-vacuity of the invariant: `initialise` on the tree of `exL` yields a state satisfying
+`CGInv` -/
+example : ∃ N nv s t, CGInv N nv s t ∧ 2 ≤ t.nCliques := by
+  obtain ⟨t0, _, hok, h2⟩ := exL_two_cliques
+  obtain ⟨s1, t1, _, _, hinv, hrel⟩ := clique_graph_initialise exL_filled hok h2
+  exact ⟨_, _, s1, t1, hinv, by rw [hrel.ncl, hok.ncl]; exact h2⟩
+
+/-- [S] `traverse` under the invariant with ≥ 2 live cliques: no panic (`findmax` of a non-empty
+weight vector, `max_elem`, every `ispermissible` lookup, the slice `p[0..nnz]`,
+`index_to_coord`); only the workspace `p` changes, not its length; a returned candidate is a stored
+entry of the edge matrix. -/
+theorem clique_graph_traverse {N nv : Nat} {s : CGStrategy} {t : SuperNodeTree}
+    (h : CGInv N nv s t) (h2 : 2 ≤ t.nCliques) :
+    ∃ p' cand?, s.traverse t = .ok ({ s with p := p' }, cand?) ∧ p'.size = s.p.size ∧
+      ∀ r c, cand? = some (r, c) → (s.edges.entry r c).isSome = true :=
+  traverse_spec N nv s t h h2
+
+/-- [S] `evaluate` on a stored entry: no panic (`get_entry(..).unwrap()`); merge iff the weight is
+`≥ 0`, otherwise `stop`. -/
+theorem clique_graph_evaluate {N nv : Nat} {s : CGStrategy} {t : SuperNodeTree}
+    (h : CGInv N nv s t) {r c : Nat} {v : Int} (hv : s.edges.entry r c = some v) :
+    s.evaluate t (r, c) = .ok (if v ≥ 0 then s else { s with stop := true }, decide (v ≥ 0)) :=
+  evaluate_spec N nv s t h r c v hv
+
+/-- [S] WHAT `update_strategy` DOES after `cr` was merged into `c1` (a stored entry `(c1, cr)`): no
+panic; the new edge matrix is `Good`, without zero weight, and its graph is the old one with `cr`
+contracted into `c1`; the adjacency table loses the key `cr`, NO SET MENTIONS `cr` ANY MORE, and
+`c1` inherits the neighbours of `cr`. -/
+theorem clique_graph_update_strategy {N nv : Nat} {s : CGStrategy} {t : SuperNodeTree}
+    (h : CGInv N nv s t) {c1 cr : Nat} (he : (s.edges.entry c1 cr).isSome = true)
+    {t' : SuperNodeTree} (hm : s.mergeTwoCliques t (c1, cr) = .ok t') :
+    ∃ s', s.updateStrategy t' (c1, cr) true = .ok s' ∧ s'.stop = s.stop ∧ s'.p = s.p ∧
+      s'.edges.Good ∧ s'.edges.m = N ∧ s'.edges.n = N ∧
+      (∀ k, k < s'.edges.nzval.size → s'.edges.nzval.getD k 0 ≠ 0) ∧
+      (∀ a b, s'.edges.Adj a b ↔ (a ≠ cr ∧ b ≠ cr ∧
+        (s.edges.Adj a b ∨ (a = c1 ∧ s.edges.Adj cr b ∧ b ≠ c1) ∨
+          (b = c1 ∧ s.edges.Adj cr a ∧ a ≠ c1)))) ∧
+      (∀ a, s'.adjacencyTable.containsKey a = true ↔
+        (s.adjacencyTable.containsKey a = true ∧ a ≠ cr)) ∧
+      (∀ a b, a ≠ cr → s.adjacencyTable.containsKey a = true →
+        (b ∈ (s'.adjacencyTable.nbrs a).toList ↔ (b ≠ cr ∧
+          (b ∈ (s.adjacencyTable.nbrs a).toList ∨
+            (a = c1 ∧ b ∈ (s.adjacencyTable.nbrs cr).toList ∧ b ≠ c1) ∨
+            (b = c1 ∧ a ∈ (s.adjacencyTable.nbrs cr).toList ∧ a ≠ c1))))) ∧
+      (∀ a, (s'.adjacencyTable.nbrs a).toList.Nodup) :=
+  update_state_ok N nv s t h c1 cr he t' hm
+
+/-- [S] **ONE MERGE PRESERVES THE LOOP INVARIANT**: `merge_two_cliques` + `update_strategy` on a
+stored entry do not panic, `CGInv` holds again (contracting an edge keeps the live cliques
+connected and does not increase the number of stored entries, so `p` stays long enough), exactly
+one clique is retired, the other fields of the tree are untouched (`CGFrame`) and COVERAGE IS
+MONOTONE (`CGCover`: merged cliques are unions). -/
+theorem clique_graph_merge_invariant {N nv : Nat} {s : CGStrategy} {t : SuperNodeTree}
+    (h : CGInv N nv s t) {r c : Nat} (he : (s.edges.entry r c).isSome = true) :
+    ∃ t' s', s.mergeTwoCliques t (r, c) = .ok t' ∧ s.updateStrategy t' (r, c) true = .ok s' ∧
+      CGInv N nv s' t' ∧ CGFrame t t' ∧ CGCover t t' ∧ t'.nCliques + 1 = t.nCliques ∧
+      s'.stop = s.stop :=
+  merge_update_ok N nv s t h r c he
+
+/-- [S] under the invariant THE ADJACENCY TABLE NEVER MENTIONS A REMOVED CLIQUE and is symmetric:
+a member `b` of the adjacency set of a live clique `a` is a live clique different from `a`, and
+`a` is in the set of `b`.  (The seeded change C17-c — sweeping only the redirected neighbours —
+breaks exactly this; the harness evaluates the invariant on the implementation's state after
+every pass and reports the clause `adj-iff`.) -/
+theorem clique_graph_adjacency_live {N nv : Nat} {s : CGStrategy} {t : SuperNodeTree}
+    (h : CGInv N nv s t) {a b : Nat} (ha : CGLive t a)
+    (hb : b ∈ (s.adjacencyTable.nbrs a).toList) :
+    CGLive t b ∧ a ≠ b ∧ a ∈ (s.adjacencyTable.nbrs b).toList :=
+  ⟨(h.nbrs_live ha hb).1, (h.nbrs_live ha hb).2, h.nbrs_symm ha hb⟩
+
+/-- [S] **THE WHOLE LOOP** of `merge_cliques` (clique-graph strategy): from any state satisfying
+`CGInv` with ≥ 2 live cliques and fuel at least `n_cliques + 1` (`1` if `stop` is already set) the
+loop returns — no panic, fuel not exhausted — a state that satisfies `CGInv` again, with the
+bookkeeping untouched, coverage monotone and at least one clique left. -/
+theorem clique_graph_loop {N nv : Nat} (fuel : Nat) {s : CGStrategy} {t : SuperNodeTree}
+    (hinv : CGInv N nv s t) (h2 : 2 ≤ t.nCliques)
+    (hfuel : (if s.stop then 1 else t.nCliques + 1) ≤ fuel) :
+    ∃ s' t', CGStrategy.loop fuel s t = .ok (s', t') ∧ CGInv N nv s' t' ∧ CGFrame t t' ∧
+      CGCover t t' ∧ 1 ≤ t'.nCliques :=
+  cg_loop_ok N nv fuel s t hinv h2 hfuel
+
+/-- [S] **`initialise` + the loop on the tree of `SuperNodeTree::new`**, with the fuel the model
+hands out (`|snode| + 2`): no panic, and AT EXIT THE HYPOTHESES OF THE KRUSKAL STAGE HOLD — they
+are clauses of `CGInv`: the edge matrix is `WFE`/`Lower`, its entries join live cliques only, the
+live cliques are connected, `n_cliques` is their number (and the root clique is live, see
+`clique_graph_post_multi`). -/
+theorem clique_graph_front {L : LPat} (h : L.Filled) {t0 : SuperNodeTree} (hok : SnTreeOk L t0)
+    (h2 : 2 ≤ t0.snode.size) :
+    ∃ s1 t1 s t, CGStrategy.new.initialise t0 = .ok (s1, t1) ∧
+      CGStrategy.loop (t1.snode.size + 2) s1 t1 = .ok (s, t) ∧
+      CGInitRel t0 t1 ∧ CGInv t0.snode.size L.n s1 t1 ∧
+      CGInv t0.snode.size L.n s t ∧ CGFrame t1 t ∧ CGCover t1 t ∧ 1 ≤ t.nCliques :=
+  cg_front_ok h hok h2
+
+/-- [S] what `CGInv` gives to `kruskal_determine_parent_cliques`: `WFE`, `Lower`, the live list
+is duplicate-free of length `n_cliques` with members `< n`, all edges inside it, and it is
+connected. -/
+theorem clique_graph_exit_kruskal_hyps {N nv : Nat} {s : CGStrategy} {t : SuperNodeTree}
+    (h : CGInv N nv s t) :
+    s.edges.WFE ∧ s.edges.Lower ∧ (cgLiveList t).Nodup ∧ (cgLiveList t).length = t.nCliques ∧
+    (∀ v ∈ cgLiveList t, v < s.edges.n) ∧
+    (∀ e ∈ s.edges.edges, e.1 ∈ cgLiveList t ∧ e.2 ∈ cgLiveList t) ∧
+    (∀ u ∈ cgLiveList t, ∀ v ∈ cgLiveList t, Conn s.edges.edges u v) :=
+  h.kruskal_hyps
+
+/-- [S] `post_process_merge` + the tail of `SparsityPattern::new` WHEN EVERYTHING WAS MERGED INTO
+ONE CLIQUE: no panic, the surviving clique is the whole vertex set, and the result satisfies the
+oracle predicate (single-clique branch). -/
+theorem clique_graph_post_single {L : LPat} (h : L.Filled) {t0 t1 t : SuperNodeTree}
+    {s : CGStrategy} (hok : SnTreeOk L t0) (hrel : CGInitRel t0 t1) (hfr : CGFrame t1 t)
+    (hcov : CGCover t1 t) (hinv : CGInv t0.snode.size L.n s t) (h1 : t.nCliques = 1)
+    (ordering : Array Nat) (ho : ordering.toList.Perm (List.range L.n))
+    (edges : List (Nat × Nat)) :
+    ∃ s' t' tf ord', s.postProcessMerge t = .ok (s', t') ∧ spTail t' ordering = .ok (tf, ord') ∧
+      ValidCliqueTree L.n edges tf ord' :=
+  post_single_spec L t0 t1 t s h hok hrel hfr hcov hinv h1 ordering ho edges
+
+/-- [S] `post_process_merge` WHEN AT LEAST TWO CLIQUES ARE LEFT: no panic
+(`clique_intersections` — no weight is the `-1` sentinel afterwards —, `kruskal`,
+`determine_parent_cliques` — THE ROOT CLIQUE IS LIVE —, `post_order`, `split_cliques`); and if the
+supernodes of the result are pairwise disjoint (`snDisjointB`, the running-intersection property
+of the spanning tree) and the live ones non-empty (`snLiveNonemptyB`: no live clique swallowed by
+its tree parent; neither is a theorem, and without the second the statement is false — see
+`Lemmas/ChordalCGPostMulti.lean`) the result is a clique tree in the state `BridgePre` in which
+`SparsityPattern::new` relabels it: `CTInv` (separator = clique ∩ parent clique, children =
+inverse of parents, …), `snode_post` lists exactly the live cliques, children before parents, the
+unique root last, every structural non-zero of `L` inside a live clique. -/
+theorem clique_graph_post_multi {L : LPat} (h : L.Filled) {t0 t1 t : SuperNodeTree}
+    {s : CGStrategy} (hok : SnTreeOk L t0) (hrel : CGInitRel t0 t1) (hfr : CGFrame t1 t)
+    (hcov : CGCover t1 t) (hinv : CGInv t0.snode.size L.n s t) (h2 : 2 ≤ t.nCliques) :
+    ∃ s' t', s.postProcessMerge t = .ok (s', t') ∧
+      (snDisjointB t' = true → snLiveNonemptyB t' = true →
+        ∃ ord : Nat → Nat, BridgePre L t' ord) :=
+  post_multi_spec L t0 t1 t s h hok hrel hfr hcov hinv h2
+
+/-- [S] **`merge_cliques` (clique-graph strategy) NEVER PANICS** on the tree of a filled pattern
+with ≥ 2 cliques: `initialise`, the loop within its fuel, `post_process_merge`. -/
+theorem clique_graph_merge_cliques_no_panic {L : LPat} (h : L.Filled) {t0 : SuperNodeTree}
+    (hok : SnTreeOk L t0) (h2 : 2 ≤ t0.snode.size) :
+    ∃ t', CGStrategy.mergeCliques t0 = .ok t' :=
+  merge_cliques_cg_no_panic h hok h2
+
+/-- non-vacuity: `merge_cliques` runs on the tree of `exL` -/
+example : ∃ t0 t', SuperNodeTree.new exL = .ok t0 ∧ CGStrategy.mergeCliques t0 = .ok t' := by
+  obtain ⟨t0, hnew, hok, h2⟩ := exL_two_cliques
+  obtain ⟨t', h⟩ := clique_graph_merge_cliques_no_panic exL_filled hok h2
+  exact ⟨t0, t', hnew, h⟩
+
+/-
+  FULL STATEMENT (not proved):
+    theorem analysis_clique_graph_valid {L : LPat} (h : L.Filled) (ordering : Array Nat)
+        (ho : ordering.toList.Perm (List.range L.n)) (edges : List (Nat × Nat))
+        (hedges : ∀ e ∈ edges, …) :
+        ∃ tf ord', sparsityPatternNewCG L ordering = .ok (tf, ord') ∧
+          ValidCliqueTree L.n edges tf ord'
+  Missing link: RUNNING INTERSECTION of the spanning tree that `kruskal` picks in the merged clique
+  graph, i.e. that the supernodes `clique \ parent clique` produced by `split_cliques` are pairwise
+  disjoint — and, its companion, that none of them is empty (no live clique contained in the clique
+  of its tree parent; true as long as the live cliques form an antichain,
+  `CGPostDesc.nonempty_of_antichain`, which merging along a junction-tree edge preserves).  It needs (1) that `kruskal` returns a MAXIMUM-weight spanning tree (proved so far:
+  a spanning tree), (2) that a maximum-weight spanning tree of a graph weighted by `|Cᵢ ∩ Cⱼ|` that
+  contains a junction tree is a junction tree, and (3) that the merged graph still contains a
+  junction tree of the merged cliques — the theorem of Garstka–Cannon–Goulart on permissible
+  merges, for which the loop invariant would have to carry "every stored entry lies on a junction
+  tree inside the graph".  In the partial theorem below the two links are the executable
+  hypotheses `cgRipB L = true` and `cgNonemptyB L = true`, evaluated by the driver on every
+  generated pattern (channel `cg.trace`, fields `rip`, `ne`) and, independently, on the
+  implementation's tree by the harness.
+-/
+
+/-- [S] **C17 FOR THE STRATEGY `clique_graph`, up to two tested links** (`…_partial`): for a filled
+pattern `L`, an `ordering` that is a permutation and pattern entries inside `L`, if the supernodes
+of the tree returned by `merge_cliques` are pairwise disjoint (`cgRipB L`) and the live ones
+non-empty (`cgNonemptyB L`), then
+`SparsityPattern::new(L, ordering, "clique_graph")` returns WITHOUT PANIC a tree and an ordering
+that satisfy `ValidCliqueTree` — every clause of the harness oracle — and the executable checker
+accepts them.  Everything else is a theorem: the reduced clique graph contains the supernode tree,
+the loop invariant, termination, the hypotheses of the Kruskal stage at exit, the parent
+structure, the post-order, separator = clique ∩ parent clique, coverage (merged cliques are
+unions, `CGCover`), the relabelling and the block sizes. -/
+theorem analysis_clique_graph_valid_partial {L : LPat} (h : L.Filled) (ordering : Array Nat)
+    (ho : ordering.toList.Perm (List.range L.n)) (edges : List (Nat × Nat))
+    (hedges : ∀ e ∈ edges, ∃ a b, a < L.n ∧ b < L.n ∧ ordering[a]? = some e.1 ∧
+        ordering[b]? = some e.2 ∧ (b ∈ L.col a ∨ a ∈ L.col b))
+    (hrip : cgRipB L = true) (hne : cgNonemptyB L = true) :
+    ∃ tf ord', sparsityPatternNewCG L ordering = .ok (tf, ord') ∧
+      ValidCliqueTree L.n edges tf ord' ∧ validCliqueTreeB L.n edges tf ord' = true :=
+  analysis_cg_valid_partial h ordering ho edges hedges hrip hne
+
+/-- [S] the same with every hypothesis in the executable form the driver evaluates on each
+generated case (`hyp.analysis`: `filled=1 perm=1 edges=1`; `cg.trace`: `rip=1 ne=1`). -/
+theorem analysis_clique_graph_valid_of_tests (L : LPat) (ordering : Array Nat)
+    (edges : List (Nat × Nat)) (h1 : L.filledB = true) (h2 : clOrderingPerm L.n ordering = true)
+    (h3 : L.edgesInB ordering edges = true) (h4 : cgRipB L = true)
+    (h5 : cgNonemptyB L = true) :
+    ∃ tf ord', sparsityPatternNewCG L ordering = .ok (tf, ord') ∧
+      validCliqueTreeB L.n edges tf ord' = true := by
+  obtain ⟨tf, ord', a, _, b⟩ := analysis_clique_graph_valid_partial ((LPat.filledB_iff L).1 h1)
+    ordering ((clOrderingPerm_iff L.n ordering).1 h2) edges (LPat.edgesInB_sound L ordering edges h3)
+    h4 h5
+  exact ⟨tf, ord', a, b⟩
+
 /-!
-Not carried by a theorem (round 3): in the clique-graph strategy the construction of the
-reduced clique graph and its weights (`compute_reduced_clique_graph`, `compute_weights`,
-`new_from_triplets`), the merge loop of that strategy (`traverse`/`ispermissible`/`evaluate`/
-`update_strategy`) and the facts that link them to the hypotheses of
-`kruskal_determine_parent_cliques` (`IMat.WFE`/`IMat.Lower` of the edge matrix, no weight `-1`
-after `clique_intersections`, connectivity of the live cliques in the merged graph, the root
-clique live) — they are modelled, compared exactly with the code, and judged by the validity
-oracle and by the machine-checked `validCliqueTreeB` on the model's output.  The AMD ordering and
+Not carried by a theorem: for the clique-graph strategy, the RUNNING-INTERSECTION property of the
+spanning tree chosen by `kruskal` in the merged clique graph and that no live clique is swallowed
+by its tree parent (see the comment above `analysis_clique_graph_valid_partial`; they are the
+tested hypotheses `cgRipB`, `cgNonemptyB`, evaluated by the driver on every generated pattern and
+by the harness on the implementation's tree).  The AMD ordering and
 QDLDL's symbolic factorisation are inputs (the hypothesis `LPat.Filled` is evaluated on them by
 the driver on every run).
 -/
